@@ -38,6 +38,15 @@ CLAIMS = {
              'unit-relative form sets, reference formulas, unit header wiring, CompileUnit/TypeUnit agreement. Not decided: values '
              'fetched from other sections; round trip of arbitrary trees. Trusted: DWARF rows in spec/dwarf.py, cursor exceptions '
              'listed in sa/cursor.py.'),
+    'C05': dict(
+        technique='layout interpretation per header version + dispatch extraction of the state machine with per-branch effect '
+                  'signatures (operands parsed, register writes in normal form, row emission) vs DWARF 5 6.2.5 rows',
+        level=LEVEL,
+        note='Decides: line header/file-entry layouts v2-5, v5 formatted-entry construction, special/standard/extended opcode '
+             'signatures incl. op_index arithmetic, clearing after rows, reset after end_sequence, unknown opcode skipping, loop '
+             'extent and cursor, unit/program wiring and v5 legacy tables. Known finding (recorded, not repaired): end_sequence row '
+             'forces is_stmt = 0 (readelf compatibility). Not decided: row values of concrete programs. Trusted: DWARF rows in '
+             'props/C05.py and spec/dwarf.py.'),
     'C07': dict(
         technique='layout interpretation of every list-entry case struct + evaluation of the translation tables with output normal '
                   'forms and field-membership + format-width rule + stream-cursor typestate with the generator/yield rule + '
